@@ -30,7 +30,7 @@ from pysym.sym import SymBool, SymFloat, SymInt, Unsupported
 
 W = sym.W
 QUERY_TIMEOUT_MS = 150000
-SHAPE_LIMIT = 200
+SHAPE_LIMIT = 400
 
 
 class QueryLog:
@@ -286,6 +286,83 @@ def _all_vars(term: typing.Any, cache: dict) -> frozenset:
     return r
 
 
+def _ieee_subterms(term: typing.Any, acc: dict, seen: set) -> None:
+    if term.get_id() in seen:
+        return
+    seen.add(term.get_id())
+    if z3.is_app(term):
+        if term.decl().kind() == z3.Z3_OP_FPA_TO_IEEE_BV:
+            acc[term.get_id()] = term
+            return
+        for c in term.children():
+            _ieee_subterms(c, acc, seen)
+
+
+def prove_float_field(solver: z3.Solver, pcs: typing.Sequence[typing.Any], field: typing.Any, relation: typing.Callable[[typing.Any], typing.Any],
+                      log: QueryLog) -> typing.Optional[z3.ModelRef]:
+    """prove pcs => relation(field) where `field` is a bit-vector expression built (by shifting/masking/concatenation) around the encoding
+    fp.to_ieee_bv(T) of a floating-point term.  Mixed float + bit-shuffling queries are very slow; the proof is split in two:
+      (1) for EVERY bit pattern w in place of the encoding, the field equals w   (pure bit-vector query; generalises the actual encoding)
+      (2) relation(fp.to_ieee_bv(T))                                             (pure floating-point query)
+    (1) and (2) imply the goal.  If the field does not have that form the goal is asked directly."""
+    acc: dict = {}
+    _ieee_subterms(field, acc, set())
+    if len(acc) == 1:
+        (T,) = acc.values()
+        if T.size() == field.size():
+            w = z3.BitVec("w_enc", T.size())
+            before = len(log.unknown)
+            m1 = _prove(solver, [c for c in pcs if not _mentions(c, T)], z3.substitute(field, (T, w)) == w, log)
+            if m1 is None and len(log.unknown) == before:
+                goal = relation(T)
+                sl = sym.slice_pc(pcs, goal)
+                key = (frozenset(c.get_id() for c in sl), goal.get_id())
+                if key in _FP_CACHE:                     # the same conversion lemma recurs for every offset / path: proved once per process
+                    log.unsat += 1
+                    return None
+                b2 = len(log.unknown)
+                m2 = _prove(solver, sl, goal, log)
+                if m2 is None and len(log.unknown) == b2:
+                    _FP_CACHE[key] = (goal, sl)          # keeps the terms alive: AST ids are unique among live terms only
+                    return None
+                if m2 is not None:
+                    return _prove(solver, pcs, goal, log)
+                return None
+            del log.unknown[before:]
+    return _prove(solver, pcs, relation(field), log)
+
+
+_FP_CACHE: dict = {}
+
+
+def _mentions(term: typing.Any, sub: typing.Any) -> bool:
+    acc: dict = {}
+    _ieee_subterms(term, acc, set())
+    return sub.get_id() in acc
+
+
+def _ser_goals(spec: typing.Any, cells: typing.Sequence[typing.Any]) -> typing.Tuple[typing.List[typing.Any], typing.List[tuple]]:
+    """the conjuncts of dsdlspec.stream_matches, with the Python float chunks kept apart as (field term, Float64 value, type)"""
+    nbytes = (spec.pos + 7) // 8
+    if nbytes == 0:
+        return [], []
+    bs = [npshim._bv(c, 8) for c in cells[:nbytes]]
+    whole = bs[0] if nbytes == 1 else z3.Concat(*reversed(bs))
+    conj: typing.List[typing.Any] = []
+    fps: typing.List[tuple] = []
+    for c in spec.chunks:
+        field = z3.simplify(z3.Extract(c[1] + c[2] - 1, c[1], whole))
+        if c[0] == "x":
+            conj.append(field == c[3])
+        elif c[0] == "pf":
+            fps.append((field, c[3], c[4]))
+        else:
+            conj.append(D.f16_wire_ok(c[4], c[3], field))
+    if spec.pos % 8:
+        conj.append(z3.Extract(8 * nbytes - 1, spec.pos, whole) == 0)
+    return conj, fps
+
+
 def _model_values(m: z3.ModelRef, plan: Plan) -> dict:
     out = {}
     for name, v in plan.vars:
@@ -344,7 +421,11 @@ def ser_queries(unit: PyUnit, t: pydsdl.CompositeType, budget_s: float = 240.0) 
                 log.cex.append(dict(fn="ser", kind="size", what=f"serialized length {len(cells)} bytes / {bitlen} bits, specification says {nbytes} / {spec.pos}",
                                     shape=repr(shape), values=_model_values(m, plan) if m is not None else {}))
                 continue
-            m = _prove_split(solver, p.pc, D.stream_matches(spec, [npshim._bv(c, 8) for c in cells], as_list=True), log)
+            conj, fps = _ser_goals(spec, cells)
+            m = _prove_split(solver, p.pc, conj, log)
+            for field, d64, ft in fps:
+                if m is None:
+                    m = prove_float_field(solver, sym.slice_pc(p.pc, d64), field, (lambda f, d64=d64, ft=ft: D.pyfloat_wire_ok(ft, d64, f)), log)
             if m is not None:
                 log.cex.append(dict(fn="ser", kind="spec-mismatch", what="serializer output differs from the specification", shape=repr(shape),
                                     values=_model_values(m, plan)))
@@ -1036,3 +1117,254 @@ def cosimulate(unit: PyUnit, gen: pathlib.Path, types: typing.Sequence[pydsdl.Co
         elif a[0] != "value" or json.dumps(a[1]) != json.dumps(_norm_native(b["value"])):
             bad.append(f"{r}: native {json.dumps(_norm_native(b['value']))[:300]}, stand-in {json.dumps(a[1], default=str)[:300]}")
     return len(reqs), bad
+
+
+# ---------------------------------------------------------------------------------------------- C18: built-in container round trip
+def builtin_roundtrip_queries(unit: PyUnit, t: pydsdl.CompositeType, budget_s: float = 240.0) -> QueryLog:
+    """obj -> nunavut_support.to_builtin -> update_from_builtin(Type(), ...) -> the new object serializes to the same bytes, for every
+    value of every shape (the real generated support module and classes, executed by pysym)"""
+    log = QueryLog()
+    solver = _solver()
+    stats: dict = {}
+    t0 = time.time()
+    cls = unit.cls(t)
+    for ns_, shape in enumerate(shapes(t)):
+        if ns_ >= SHAPE_LIMIT:
+            log.unknown.append(f"more than {SHAPE_LIMIT} value shapes")
+            break
+        plan = Plan()
+        val, build = make(plan, t, shape, "")
+        pre = plan.pre + _no_nan(val)
+
+        def run() -> typing.Any:
+            obj = build(unit)
+            ser = unit.ns.Serializer.new(obj._EXTENT_BYTES_)
+            obj._serialize_(ser)
+            b1 = ser.buffer.raw()
+            plain = unit.ns.to_builtin(obj)
+            obj2 = unit.ns.update_from_builtin(cls(), plain)
+            ser2 = unit.ns.Serializer.new(obj2._EXTENT_BYTES_)
+            obj2._serialize_(ser2)
+            return b1, ser2.buffer.raw(), _plain_ok(plain)
+
+        try:
+            paths = sym.explore(run, pre=pre, budget_s=max(budget_s - (time.time() - t0), 1.0), stats=stats)
+        except Unsupported as e:
+            if "tobytes()" in str(e):
+                n = f"NOT COVERED [py built-in round trip]: shapes with a non-empty string-like (uint8[<=N]) array: to_builtin decides text vs list on the symbolic bytes"
+                if n not in log.notes:
+                    log.notes.append(n)
+            else:
+                log.unknown.append(f"shape {shape}: unsupported: {e}")
+            continue
+        for p in paths:
+            log.paths += 1
+            if p.kind == "raise":
+                m = _prove(solver, p.pc, False, log)
+                log.cex.append(dict(fn="builtin", kind="raises", what=f"to_builtin/update_from_builtin of a valid object raises {type(p.value).__name__}: {str(p.value)[:120]}",
+                                    shape=repr(shape), values=_model_values(m, plan) if m is not None else {}))
+                continue
+            b1, b2, plain_ok = p.value
+            if plain_ok is not True:
+                m = _prove(solver, p.pc, False, log)
+                log.cex.append(dict(fn="builtin", kind="not-builtin", what=f"to_builtin returned a non-built-in value: {plain_ok}", shape=repr(shape),
+                                    values=_model_values(m, plan) if m is not None else {}))
+                continue
+            m = _prove_split(solver, p.pc, [npshim._bv(x, 8) == npshim._bv(y, 8) for x, y in zip(b1, b2)] if len(b1) == len(b2) else [False], log)
+            if m is not None:
+                log.cex.append(dict(fn="builtin", kind="builtin-roundtrip", what="update_from_builtin(T(), to_builtin(v)) serializes to different bytes than v",
+                                    shape=repr(shape), values=_model_values(m, plan)))
+    log.solver_s += stats.get("solver_s", 0.0)
+    return log
+
+
+def _plain_ok(x: typing.Any) -> typing.Any:
+    """True, or a description of the first value that is not dict/list/str/bool/int/float (symbolic ints/bools/floats stand for those)"""
+    if isinstance(x, dict):
+        for k, v in x.items():
+            if not isinstance(k, str):
+                return f"key {k!r}"
+            r = _plain_ok(v)
+            if r is not True:
+                return r
+        return True
+    if isinstance(x, (list, tuple)):
+        for v in x:
+            r = _plain_ok(v)
+            if r is not True:
+                return r
+        return True
+    if isinstance(x, (str, builtins.bool, builtins.int, builtins.float, SymInt, SymBool, SymFloat)):
+        return True
+    return f"{type(x).__name__}"
+
+
+NATIVE_BUILTIN = r'''
+import sys, json
+sys.path.insert(0, sys.argv[1])
+import numpy as np, nunavut_support as ns
+exec(sys.argv[2])
+'''
+
+
+def replay_builtin(gen: pathlib.Path, t: pydsdl.CompositeType, cex: dict) -> typing.Tuple[bool, str]:
+    try:
+        shape = eval(cex["shape"], {}, {})
+        plan = Plan()
+        make(plan, t, shape, "")
+        vj = value_json(t, shape, iter([cex["values"][n] for n, _ in plan.vars]))
+        full = str(D.inner(t).full_name)
+        env = {k: v for k, v in os.environ.items() if k != "PYTHONPATH"}
+        code = NATIVE.replace("req = json.loads(sys.stdin.read())", "req = json.loads(sys.stdin.read())\nBUILTIN = True")
+        code = code.replace('            out.append(dict(ok=True, hex=b"".join(bytes(x) for x in ns.serialize(o)).hex()))',
+                            '            o2 = ns.update_from_builtin(c(), ns.to_builtin(o))\n'
+                            '            out.append(dict(ok=True, hex=b"".join(bytes(x) for x in ns.serialize(o)).hex(), hex2=b"".join(bytes(x) for x in ns.serialize(o2)).hex(), plain=repr(ns.to_builtin(o))[:200]))')
+        p = subprocess.run([common.PY, "-c", code, str(gen)], input=json.dumps([dict(type=full, fn="ser", value=vj)]), stdout=subprocess.PIPE, stderr=subprocess.PIPE, text=True, env=env)
+        if p.returncode != 0:
+            return False, "native run failed: " + p.stderr[-300:]
+        r = json.loads(p.stdout.strip().splitlines()[-1])[0]
+        if not r["ok"]:
+            nep50 = r["exc"] == "OverflowError" and "out of bounds for" in r.get("msg", "")
+            return (not nep50), f"native: raises {r['exc']}: {r.get('msg')}"
+        return (r["hex"] != r["hex2"]), f"native: {json.dumps(vj)[:140]} -> {r['hex']}; via built-ins {r['plain']} -> {r['hex2']}"
+    except Exception as e:
+        return False, f"replay failed: {type(e).__name__}: {e}"
+
+
+def array_validation_queries(unit: PyUnit, t: pydsdl.CompositeType) -> QueryLog:
+    """C18: constructing or assigning an array field with more elements than its capacity (variable) / another number of elements than its
+    length (fixed) raises ValueError rather than storing it; a permitted number of elements is stored.  Element values symbolic (anywhere
+    in the numpy element type), element counts 0..capacity+2 enumerated, given as a list and as an array of the field's own dtype."""
+    log = QueryLog()
+    solver = _solver()
+    it = D.inner(t)
+    if isinstance(it, pydsdl.UnionType):
+        return log
+    cls = unit.cls(t)
+    for f in it.fields_except_padding:
+        ft = f.data_type
+        if not (isinstance(ft, pydsdl.ArrayType) and isinstance(ft.element_type, pydsdl.PrimitiveType)):
+            continue
+        var = isinstance(ft, pydsdl.VariableLengthArrayType)
+        dt = np_dtype_of(ft.element_type)
+        for n in range(0, ft.capacity + 3):
+            for form in ("list", "ndarray"):
+                for via in ("constructor", "setter"):
+                    vs = [z3.BitVec(f"e{i}", dt.bits if dt.kind != "b" else 1) for i in range(n)]
+
+                    def cells() -> list:
+                        if dt.kind == "b":
+                            return [sym.mk_bool(v == 1) for v in vs]
+                        if dt.kind == "f":
+                            return [("fbits", v) for v in vs]
+                        return [sym.mk_int(_ext(v, dt.kind == "i"), dt.bits + 1) for v in vs]
+
+                    def run() -> typing.Any:
+                        c = cells()
+                        if form == "ndarray":
+                            arg: typing.Any = npshim.ndarray(c, dt)
+                        else:
+                            arg = [npshim._scalar_out(x, dt) for x in c]
+                        try:
+                            if via == "constructor":
+                                o = cls(**{f.name: arg})
+                            else:
+                                o = cls()
+                                setattr(o, f.name, arg)
+                        except ValueError:
+                            return ("ValueError", None)
+                        return ("stored", getattr(o, f.name))
+
+                    try:
+                        paths = sym.explore(run, budget_s=60.0)
+                    except Unsupported as e:
+                        log.unknown.append(f"{f.name} n={n} {form} {via}: unsupported: {e}")
+                        continue
+                    must_raise = (n > ft.capacity) if var else (n != ft.capacity)
+                    for p in paths:
+                        log.paths += 1
+                        ok: typing.Any
+                        if p.kind == "raise":
+                            ok, what = False, f"raises {type(p.value).__name__} instead of ValueError: {str(p.value)[:80]}"
+                        elif p.value[0] == "ValueError":
+                            ok, what = must_raise, "a permitted array is rejected"
+                        elif must_raise:
+                            ok, what = False, f"{n} elements stored in {ft}"
+                        else:
+                            got = p.value[1]
+                            ok = isinstance(got, npshim.ndarray) and len(got) == n and got.dtype is dt
+                            what = "stored array has the wrong length or element type"
+                            if ok and n:
+                                conj = []
+                                for g, v in zip(got.raw(), vs):
+                                    if dt.kind == "b":
+                                        conj.append((z3.If(g.z, z3.BitVecVal(1, 1), z3.BitVecVal(0, 1)) if isinstance(g, SymBool) else z3.BitVecVal(int(builtins.bool(g)), 1)) == v)
+                                    elif dt.kind == "f":
+                                        conj.append((g[1] if not isinstance(g[1], builtins.int) else z3.BitVecVal(g[1], dt.bits)) == v)
+                                    else:
+                                        conj.append(SymInt.lift(g).z == _ext(v, dt.kind == "i"))
+                                ok = z3.And(*conj)
+                                what = "stored elements differ from the given ones"
+                        m = _prove(solver, p.pc, ok, log)
+                        if m is not None:
+                            log.cex.append(dict(fn="arrayval", kind="array-validation", what=f"{t.full_name}.{f.name} ({ft}) given {n} elements as {form} via {via}: {what}",
+                                                field=f.name, n=n, form=form, via=via, elems=[m.eval(v, model_completion=True).as_long() for v in vs]))
+    return log
+
+
+def replay_arrayval(gen: pathlib.Path, t: pydsdl.CompositeType, cex: dict) -> typing.Tuple[bool, str]:
+    it = D.inner(t)
+    f = [x for x in it.fields_except_padding if x.name == cex["field"]][0]
+    ft = f.data_type
+    et = ft.element_type
+    dt = np_dtype_of(et)
+    elems = []
+    for v in cex["elems"]:
+        if dt.kind == "i" and v >= 1 << (dt.bits - 1):
+            v -= 1 << dt.bits
+        elems.append(bool(v) if dt.kind == "b" else v)
+    code = f'''
+import sys, json
+sys.path.insert(0, {str(gen)!r})
+import numpy as np, vt
+from vt import *
+import nunavut_support as ns
+def find(full):
+    for name in dir(vt):
+        c = getattr(vt, name)
+        for cand in [c] + [getattr(c, n) for n in ("Request", "Response") if hasattr(c, n)]:
+            m = getattr(cand, "_MODEL_", None)
+            if m is not None and str(m.full_name) == full: return cand
+c = find({str(D.inner(t).full_name)!r})
+elems = {elems!r}
+dt = np.dtype({dt.name!r})
+if {dt.kind!r} == "f":
+    arr = np.frombuffer(b"".join(int(x).to_bytes(dt.itemsize, "little") for x in elems), dtype=dt).copy()
+else:
+    arr = np.array(elems, dtype=dt)
+arg = arr if {cex["form"]!r} == "ndarray" else list(arr)
+try:
+    if {cex["via"]!r} == "constructor": o = c(**{{{f.name!r}: arg}})
+    else:
+        o = c(); setattr(o, {f.name!r}, arg)
+    got = getattr(o, {f.name!r})
+    print(json.dumps(dict(outcome="stored", n=len(got), same=bool(got.tobytes() == arr.tobytes()), dtype=str(got.dtype))))
+except ValueError as e:
+    print(json.dumps(dict(outcome="ValueError")))
+except Exception as e:
+    print(json.dumps(dict(outcome=type(e).__name__, msg=str(e)[:100])))
+'''
+    env = {k: v for k, v in os.environ.items() if k != "PYTHONPATH"}
+    p = subprocess.run([common.PY, "-c", code], stdout=subprocess.PIPE, stderr=subprocess.PIPE, text=True, env=env)
+    if p.returncode != 0 or not p.stdout.strip():
+        return False, "native run failed: " + p.stderr[-300:]
+    r = json.loads(p.stdout.strip().splitlines()[-1])
+    n = cex["n"]
+    var = isinstance(ft, pydsdl.VariableLengthArrayType)
+    must_raise = (n > ft.capacity) if var else (n != ft.capacity)
+    if r["outcome"] == "ValueError":
+        return (not must_raise), f"native: ValueError for {n} elements"
+    if r["outcome"] == "stored":
+        bad = must_raise or r["n"] != n or not r["same"] or r["dtype"] != dt.name
+        return bad, f"native: stored {r}"
+    return True, f"native: {r}"
